@@ -24,6 +24,8 @@ def case_st(draw):
         c["nfiles"] = draw(st.sampled_from([1, 3, 31]))
         # all bodies tiny: the first refused write is then that of an .inf file (extract-files)
         c["tiny"] = draw(st.booleans())
+        # a file right at the end of the disc, so that the LAST unused span is the smallest one (extract-unused)
+        c["endfile"] = draw(st.booleans())
         c["tracks"] = draw(st.sampled_from([40, 80]))
     else:
         c["cmd"] = draw(st.sampled_from(BASIC_CMDS))
@@ -172,6 +174,9 @@ class C11(CheckBase):
             ents.append({"name": names[i], "dir": ord("$") if i % 3 else ord("A"), "locked": i % 2 == 0, "load": 0x1900,
                          "exec": 0x8023, "length": ln, "start": cur, "body": {"kind": case["kind"], "seed": case["seed"] + i}})
             cur += nsec + (i % 2)
+        if case.get("endfile") and n < 31 and cur < total - 3:
+            ents.append({"name": b"END", "dir": ord("$"), "locked": False, "load": 0, "exec": 0, "length": 256,
+                         "start": total - 2, "body": {"kind": "rand", "seed": 9}})
         ents.sort(key=lambda e: -e["start"])
         s = {"variant": "acorn", "tracks": tracks, "spt": 10, "fill": {"kind": "rand", "seed": 3},
              "volumes": [{"label": None, "title": b"C11", "cycle": 1, "boot": 2, "total": total, "cats": [ents]}]}
